@@ -53,6 +53,8 @@ h_dump(void)
 		       (unsigned)echs_task_owner(t->t), (unsigned long long)t->cur.u, t->nrun, (ssize_t)t->nsim,
 		       ev_is_active(&t->w), ev_periodic_at(&t->w), t->w.reschedule_cb != NULL,
 		       (unsigned)t->t->max_simul);
+		hx_log(",cmd=");
+		if (t->t->cmd) hx_log_esc(t->t->cmd, strlen(t->t->cmd));
 	}
 	hx_log("\n");
 }
